@@ -3,7 +3,7 @@
    pinned tree.  Kept apart so that re-checking Properties.v does not recompute the hashes. *)
 From Common Require Import Bytes Outcome Blake2b.
 From TrieCodec Require Import Codec View Db ProofsBasic ProofsDecode ProofsDb ProofsWrite.
-From C04 Require Import Model Proofs ProofsAll.
+From C04 Require Import Model Proofs ProofsAll ProofsDiscipline.
 Local Open Scope N_scope.
 
 Definition nib (l : list N) : list byte := map n2b l.
@@ -102,3 +102,21 @@ Lemma C04_stale_nonvacuous_holds :
   /\ load blake2b_256 (false, false) true 2 (db_of ex_stale) (root_of ex_stale) = Ok (Some (norm (erase ex_stale)))
   /\ get_from_db_fixed blake2b_256 (false, false) true (db_of ex_stale) (root_of ex_stale) (nib [20]) = Ok (Some v33).
 Proof. repeat split; vm_compute; reflexivity. Qed.
+
+(* a two-block history honouring the Dirty-flag contract: block 1 writes ex_diverge (all dirty);
+   block 2 replaces the value under child 5, the leaf under child 4 stays clean *)
+Definition ex_block2 : wnode :=
+  WN (nib [1; 2; 3]) None false true
+     (at_ 4 (WN [] (Some v33) false false []) (at_ 5 (WN [] (Some (nib [9; 9])) false true []) none16)).
+
+Lemma C04_discipline_nonvacuous_holds :
+     parts blake2b_256 true ex_block2 = [(false, TN [] (Some v33) false [])]
+  /\ exists d', dchain blake2b_256 [] [] [ex_diverge; ex_block2] d'.
+Proof.
+  split; [vm_compute; reflexivity|].
+  eexists. constructor.
+  - intros p Hp. vm_compute in Hp. contradiction.
+  - constructor; [|constructor].
+    intros p Hp. vm_compute in Hp. destruct Hp as [<-|[]].
+    right. left. vm_compute. auto.
+Qed.
